@@ -8,7 +8,7 @@ mkdir -p "$OUT/obj_$VAR"
 case "$VAR" in
   asan) SAN="-O1 -g -fsanitize=address,undefined -fno-sanitize=vptr,alignment,nonnull-attribute -fno-sanitize-recover=all" ;;
   tsan) SAN="-O1 -g -fsanitize=thread" ;;
-  plain) SAN="-O2" ;;
+  plain) SAN="-O2 -DVERIF_NO_NEW_OVERRIDE" ;;
 esac
 CXXF="-std=c++17 $SAN -DASAM_CMP_VERIF -I$REPO/include -pthread"
 ls "$REPO"/src/*.cpp | xargs -P 16 -I{} sh -c 'g++ '"$CXXF"' -c {} -o '"$OUT/obj_$VAR"'/$(basename {} .cpp).o' 
